@@ -101,6 +101,20 @@ def client_entry_points(v, pid, tier, seed, prefixes):
         s.cleanup()
 
 
+def oracle_only(v, pid, binary, cmd, tier, seed, prefixes, need_rocks=False):
+    """Run a harness command whose oracles alone decide (no model evaluation) and keep the violations of this property."""
+    s, res = harness(v, pid, binary, cmd, tier, seed, need_rocks=need_rocks)
+    try:
+        st = res.get("stats", {})
+        v.coverage.setdefault("distribution", {}).update({cmd + "_" + k: n for k, n in st.items()})
+        v.coverage["evaluations"] = v.coverage.get("evaluations", 0) + st.get("evaluations", 0)
+        for viol in (res.get("violations") or []):
+            if viol["signature"].startswith(tuple(prefixes)):
+                v.violation(viol["signature"], viol["what"], viol["replay"])
+    finally:
+        s.cleanup()
+
+
 def hyperb_tie(v, pid, tier, seed, theorem):
     """The batch-level hyper model (Hyper/HyperBatch.v) against balloon/hyper: tables, root hashes, searches and
     re-opened trees of the `hyperb` command.  Used by every property whose theorems speak about that model."""
